@@ -72,6 +72,20 @@ ReadNth(i) ==
             /\ A' = A \cup {0} /\ UNCHANGED pend
     /\ UNCHANGED << N, hasIdx >>
 
+\* a random access that FAILS (here: a typed access naming another type than the record's).  C15
+\* demands that later random accesses are unaffected; where a following fresh iteration starts is
+\* not stated: the position before the call, the first record and record i are all allowed
+ReadNthFails(i) ==
+    /\ IF ~hasIdx
+       THEN /\ out' = [call |-> "nthfail", items |-> << >>, ended |-> FALSE, res |-> -2]
+            /\ UNCHANGED << A, pend >>
+       ELSE IF i < N
+       THEN /\ out' = [call |-> "nthfail", items |-> << >>, ended |-> FALSE, res |-> -4]    \* type mismatch
+            /\ A' = A \cup {0, i} /\ UNCHANGED pend
+       ELSE /\ out' = [call |-> "nthfail", items |-> << >>, ended |-> FALSE, res |-> -1]
+            /\ A' = A \cup {0} /\ UNCHANGED pend
+    /\ UNCHANGED << N, hasIdx >>
+
 Seek(k) ==
     /\ IF ~hasIdx
        THEN /\ out' = [call |-> "seek", items |-> << >>, ended |-> FALSE, res |-> -2]
